@@ -223,7 +223,9 @@ fn generate_f(seed: u64, quick: bool) -> Value {
             lines.push(json!({"text": line, "completes": si}));
         }
         let eof_after = if rng.chance(1, 3) { Some(rng.upto(lines.len())) } else { None };
-        splittings.push(json!({"lines": lines, "eof_after": eof_after}));
+        // sometimes the input simply ends after the last line, without a line terminator
+        let unterminated = eof_after.is_none() && rng.chance(1, 4);
+        splittings.push(json!({"lines": lines, "eof_after": eof_after, "last_line_unterminated": unterminated}));
     }
     json!({
         "seed": seed,
@@ -393,6 +395,21 @@ fn execute_f(case: Value) -> RunResult {
                     }
                 }
                 let text = l["text"].as_str().unwrap_or("");
+                if li + 1 == lines.len() && sp["last_line_unterminated"].as_bool().unwrap_or(false) {
+                    // the input ends right after this line's last character: no terminator, no
+                    // waiting; what it yields shows up in the transcript at the end
+                    if sess.send_raw(text).is_err() {
+                        violation = Some(Violation { signature: "C18/repl-closed-its-input".into(), detail: json!({"line": li}) });
+                    }
+                    sent += 1;
+                    if let Some(si) = l["completes"].as_u64() {
+                        done_subs = si as usize + 1;
+                        exp_out.push_str(&expected[si as usize].0);
+                        exp_err.push_str(&expected[si as usize].1);
+                    }
+                    res.count("probe.input_ends_without_line_terminator");
+                    break;
+                }
                 if sess.send_line(text).is_err() {
                     violation = Some(Violation { signature: "C18/repl-closed-its-input".into(), detail: json!({"line": li}) });
                     break;
